@@ -138,15 +138,22 @@ def _check_flow(ctx, run, vine, cond):
                         'level %d edge (%s,%s|%s): U range [%r, %r], finite=%r'
                         % (item['level'], e.L, e.R, sorted(e.D), float(np.nanmin(U)),
                            float(np.nanmax(U)), bool(np.isfinite(U).all())), **c)
-        # h-functions, with the implementation's 0/1 correction applied to the reference
-        for row, ref in ((0, item['hL']), (1, item['hR'])):
+        # h-functions of the edge's copula on the selected inputs.  Gating references: the
+        # library's own conditional cdf on a fresh copula object (always), and the closed
+        # form of copsim.refs where the edge's |tau| <= 0.8 (the families' quantified range)
+        refs_to_check = [(0, item['libL'], 1e-12), (1, item['libR'], 1e-12)]
+        if item['closed_form_gates']:
+            refs_to_check += [(0, item['hL'], 1e-6), (1, item['hR'], 1e-6)]
+        else:
+            ctx.probes['edge_outside_closed_form_range'] += 1
+        for row, ref, tol in refs_to_check:
             ref = np.array(ref, dtype=float)
             # where the h-function rounds to (or beyond) 0 or 1 the property only asks for a
             # value strictly inside (0,1) next to that end
             low, high = ref <= 1e-12, ref >= 1 - 1e-12
             if (low | high).any():
                 ctx.probes['zero_one_correction_branch'] += 1
-            ok = np.isclose(U[row], ref, rtol=1e-7, atol=1e-9)
+            ok = np.isclose(U[row], ref, rtol=tol, atol=tol)
             ok = np.where(low, (U[row] > 0) & (U[row] < 1e-6), ok)
             ok = np.where(high, (U[row] < 1) & (U[row] > 1 - 1e-6), ok)
             if not ok.all():
@@ -194,9 +201,19 @@ def _check_likelihood(ctx, run, vine, cond):
         if not np.isfinite(ref):
             ctx.probes['reference_loglik_not_finite'] += 1
             continue
-        if not np.isclose(a, ref, rtol=1e-6, atol=1e-6):
+        if not np.isclose(a, ref, rtol=1e-9, atol=1e-9):
             ctx.violate('b_likelihood_is_sum_of_log_pair_densities', SUBJECT_LIK,
-                        'u=%r: get_likelihood %r, independent recursion %r' % (pt, a, ref), **c)
+                        'u=%r: get_likelihood %r, independent recursion over the edges %r'
+                        % (pt, a, ref), **c)
+        elif vinelib.within_quantified_range(vine) and not near_edge:
+            # cross-check with the closed-form densities (inside their quantified range)
+            ref2 = vinelib.ref_loglik(vine, u[0], closed_form=True)
+            if np.isfinite(ref2) and not np.isclose(a, ref2, rtol=1e-5, atol=1e-5):
+                ctx.violate('b_likelihood_is_sum_of_log_pair_densities', SUBJECT_LIK,
+                            'u=%r: get_likelihood %r, closed-form recursion %r' % (pt, a, ref2),
+                            reference='closed_form', **c)
+        else:
+            ctx.probes['closed_form_likelihood_not_applicable'] += 1
 
 
 def _check_sample(ctx, run, vine, df, n, cond):
